@@ -45,6 +45,12 @@ static __attribute__((noinline)) void dirty_stack(int fill) {
     asm volatile("" ::: "memory");
 }
 
+static __attribute__((noinline)) void dirty_stack_small(int fill) {
+    volatile unsigned char buf[96 * 1024];
+    for (size_t i = 0; i < sizeof buf; i += 1) buf[i] = (unsigned char)fill;
+    asm volatile("" ::: "memory");
+}
+
 static void run_one(const Plan &p, const gen::Csr &A0, const std::vector<double> &rhs, Out &o) {
     namespace pt = boost::property_tree;
     long kind = p.get("kind");
@@ -179,6 +185,7 @@ Plan generate(uint64_t seed, uint64_t run, bool thorough) {
     p.set("block_size", r.chance(0.2) ? r.range(2, 3) : 1, 1);
     p.set("nullspace", r.chance(0.3) ? r.range(1, 3) : 0, 0);
     p.set("nt", r.chance(0.6) ? 1 : draw_nt(r, 2, 32), 1);
+    p.set("nested", r.chance(0.3) ? 1 : 0, 0);
     p.set("prehistory", r.range(0, 3), 0);
     p.set("heap_seed", (long)(r.next() >> 16), 0);
     draw_vary_params(r, p, 0.5);
@@ -212,12 +219,16 @@ Result execute(const Plan &p) {
         sim::heap_configure(heaps[k]);
         dirty_stack(heaps[k].fill == sim::HF_ZERO ? 0 : 0xA5 + k);
         sim::HeapStats before, after;
+        // some multi-threaded worlds run everything from a thread of the caller's own parallel region (nested regions are serialised:
+        // teams of one while omp_get_max_threads() still says nt) on a stack dirtied like the heap
+        const bool nested = p.get("nested", 0) != 0 && nt >= 2;
+        const int sfill = heaps[k].fill == sim::HF_ZERO ? 0 : 0xA5 + k;
         sim::RunStatus st = world(nt, p.sched, [&]() {
-            prehistory(p);
-            before = sim::heap_stats();
-            run_one(p, A, rhs, outs[k]);
-            after = sim::heap_stats();
+            if (!nested) { prehistory(p); before = sim::heap_stats(); run_one(p, A, rhs, outs[k]); after = sim::heap_stats(); return; }
+            #pragma omp parallel
+            { if (omp_get_thread_num() == omp_get_num_threads() - 1) { dirty_stack_small(sfill); prehistory(p); before = sim::heap_stats(); run_one(p, A, rhs, outs[k]); after = sim::heap_stats(); } }
         });
+        if (nested && k == 0) { res.counts["nested_caller_worlds"]++; res.faults["team_smaller_than_max_threads"]++; }
         res.absorb(st);
         if (st.status) { Violation v = sig(base, "terminates"); v.oracle = "world-terminates"; v.detail = st.blocked; res.fail(v); }
         if (sim::heap_simulated()) {
